@@ -114,8 +114,9 @@ def site(cfg):
     return "combinatorial" if cfg["mapping"] == "COMB" else "fermion_to_qubit_mapping"
 
 
-def encode(cfg, op, fop=None):
-    """Call the real code; returns a mc.ref.pauli operator. Exceptions propagate."""
+def encode(cfg, op, fop=None, spelling=None):
+    """Call the real code; returns a mc.ref.pauli operator. Exceptions propagate. spelling: 'lower' / 'upper' / 'capitalize' writes
+    the (case-insensitive) mapping name differently."""
     fop = mk_fop(op) if fop is None else fop
     with warnings.catch_warnings():
         warnings.simplefilter("ignore")
@@ -127,7 +128,8 @@ def encode(cfg, op, fop=None):
             q = combinatorial(fop, cfg["n"] // 2, ne)
         else:
             from tangelo.toolboxes.qubit_mappings.mapping_transform import fermion_to_qubit_mapping
-            kw = dict(mapping=cfg["mapping"], n_spinorbitals=cfg["n"], up_then_down=cfg["utd"])
+            kw = dict(mapping=(getattr(cfg["mapping"], spelling)() if spelling else cfg["mapping"]), n_spinorbitals=cfg["n"],
+                      up_then_down=cfg["utd"])
             if cfg["mapping"].upper() == "SCBK":
                 kw.update(n_electrons=cfg["na"] + cfg["nb"], spin=cfg["na"] - cfg["nb"])
             q = fermion_to_qubit_mapping(fop, **kw)
@@ -161,8 +163,14 @@ class Ctx:
                 self.bad("operand-mutated", dict(case, failing_input=op_to_json(op)), {"input": F.op_to_str(op)})
             else:
                 E2 = encode(self.cfg, op, fop)
-                E3 = encode(self.cfg, op, fop)
-                if P.max_abs_diff(E, E2) > 1e-12 or P.max_abs_diff(E, E3) > 1e-12:
+                # third mapping of the same object, with the mapping name written in another case (the name is case-insensitive)
+                sp = ("lower", "upper", "capitalize")[len(self.cache) % 3]
+                E3 = encode(self.cfg, op, fop, spelling=sp)
+                if P.max_abs_diff(E, E2) <= 1e-12 and P.max_abs_diff(E, E3) > 1e-12 and self.cfg["mapping"] != "COMB":
+                    self.bad("mapping-name-spelling-changes-the-image", dict(case, failing_input=op_to_json(op)),
+                             {"input": F.op_to_str(op), "spelling": getattr(self.cfg["mapping"], sp)(), "canonical": P.to_str(E)[:200],
+                              "other_spelling": P.to_str(E3)[:200]})
+                elif P.max_abs_diff(E, E2) > 1e-12 or P.max_abs_diff(E, E3) > 1e-12:
                     self.bad("second-mapping-of-same-object-differs", dict(case, failing_input=op_to_json(op)),
                              {"input": F.op_to_str(op), "first": P.to_str(E)[:200], "second": P.to_str(E2)[:200], "third": P.to_str(E3)[:200]})
         except Exception as e:  # in-domain input: must not raise
